@@ -78,7 +78,10 @@ ChargeProb(P, kinds, cons, b) ==
 
 \* terms for term_correlation_function_right/left: <<term_L, term_R>> with relative site indices
 TermPairs(kinds, cons) ==
-    IF ~Uniform(kinds) THEN {}
+    IF ~Uniform(kinds) THEN
+        \* inhomogeneous chain of spin-1/2 and spin-1 sites: the operator name is resolved by the site it acts on
+        (IF \A k \in 1..Len(kinds) : kinds[k] \in {"H", "T"}
+         THEN {<< <<<<"Sz", 0>>>>, <<<<"Sz", 0>>>> >>, << <<<<"Sz", 0>>>>, <<<<"Sz", 0>>, <<"Sz", 1>>>> >>} ELSE {})
     ELSE CASE kinds[1] = "H" -> {<< <<<<"Sp", 0>>>>, <<<<"Sm", 0>>>> >>, << <<<<"Sigmaz", 0>>, <<"Sp", 1>>>>, <<<<"Sm", 0>>>> >>}
            [] kinds[1] = "F" -> {<< <<<<"Cd", 0>>>>, <<<<"C", 0>>>> >>, << <<<<"Cd", 0>>, <<"C", 1>>>>, <<<<"N", 0>>>> >>,
                                  << <<<<"C", 0>>>>, <<<<"N", 0>>, <<"Cd", 1>>>> >>}
@@ -87,6 +90,27 @@ Shift(term, d) == [k \in 1..Len(term) |-> <<term[k][1], term[k][2] + d>>]
 Span(term) == LET RECURSIVE Mx(_)
                   Mx(k) == IF k = 0 THEN 0 ELSE IMax(term[k][2], Mx(k - 1))
               IN Mx(Len(term))
+
+\* term_list_correlation_function_right(term_list_L, term_list_R, i_L = 0, j_R): sums of terms with prefactors;
+\* value(j) = sum_{a, b} sL[a] sR[b] <term_L[a] (at 0) term_R[b] (at j)>
+TermLists(kind) ==
+    CASE kind = "H" -> [tl |-> <<<<<<"Sp", 0>>>>, <<<<"Sm", 0>>>>>>, sL |-> <<1, 2>>,
+                        tr |-> <<<<<<"Sp", 0>>>>, <<<<"Sm", 0>>>>, <<<<"Sigmaz", 0>>>>>>, sR |-> <<3, 1, 2>>]
+      [] kind = "F" -> [tl |-> <<<<<<"Cd", 0>>>>, <<<<"C", 0>>>>>>, sL |-> <<1, 2>>,
+                        tr |-> <<<<<<"C", 0>>>>, <<<<"Cd", 0>>>>>>, sR |-> <<3, 1>>]
+      [] OTHER -> [tl |-> <<<<<<"Sz", 0>>>>>>, sL |-> <<2>>, tr |-> <<<<<<"Sz", 0>>>>, <<<<"Sz", 0>>, <<"Sz", 1>>>>>>, sR |-> <<3, 1>>]
+TermListCorr(Pb, Pk, kinds, qL) ==
+    LET TL == TermLists(kinds[1])
+        n == Len(kinds)
+        spanR == LET RECURSIVE Mx(_)
+                     Mx(b) == IF b = 0 THEN 0 ELSE IMax(Span(TL.tr[b]), Mx(b - 1))
+                 IN Mx(Len(TL.tr))
+    IN [tl |-> TL.tl, sL |-> TL.sL, tr |-> TL.tr, sR |-> TL.sR,
+        val |-> [j \in {j \in 1..(n - 1) : j + spanR < n} |->
+                   GSumSeq([x \in 1..(Len(TL.tl) * Len(TL.tr)) |->
+                       LET a == ((x - 1) \div Len(TL.tr)) + 1
+                           b == ((x - 1) % Len(TL.tr)) + 1
+                       IN GScale(TL.sL[a] * TL.sR[b], EvTerm(Pb, Pk, kinds, qL, TL.tl[a] \o Shift(TL.tr[b], j)))])]]
 
 MeasureTable(Pb, Pk, kinds, cons, qL) ==
     LET n == Len(kinds)
@@ -108,6 +132,7 @@ MeasureTable(Pb, Pk, kinds, cons, qL) ==
         tcorr |-> [tp \in TermPairs(kinds, cons) |->
                    [j \in {j \in S0 : j > Span(tp[1]) /\ j + Span(tp[2]) < n} |->
                        EvTerm(Pb, Pk, kinds, qL, Shift(tp[1], 0) \o Shift(tp[2], j))]],
+        tlc |-> IF Uniform(kinds) /\ n >= 2 THEN TermListCorr(Pb, Pk, kinds, qL) ELSE [val |-> <<>>],
         tcorrL |-> [tp \in TermPairs(kinds, cons) |->
                    [i \in {i \in S0 : i + Span(tp[1]) < n - 1 - Span(tp[2])} |->
                        EvTerm(Pb, Pk, kinds, qL, Shift(tp[1], i) \o Shift(tp[2], n - 1 - Span(tp[2])))]]]
